@@ -5,7 +5,8 @@ DUT: luna.gateware.usb.usb3.link.receiver.HeaderPacketReceiver (real class, cont
 RawHeaderPacketReceiver and LinkCommandGenerator).
 Environment: lib/ss_link.SSScriptedSource sends N header packets at concrete cycles with fully symbolic content
 (DW0..2, link control word incl. the sequence number, corruption masks on CRC16/CRC5; CRCs by the repo's step
-functions), free traffic in between; free per cycle: source.ready (PHY arbitration), queue.ready (protocol layer),
+functions), concrete logical idle in between (symbolic idle words would make the DUT's HPSTART decision, and with
+it every later CRC comparison, symbolic); free per cycle: source.ready (PHY arbitration), queue.ready (protocol layer),
 retry_received (partner's LRTY, only after an LBAD went out), retry_required / keepalive_required /
 reject_power_state strobes (make the DUT interleave LRTY / LUP / LXU commands).
 Oracle: an independent ghost of the link rules -- expected sequence number, ignore-until-retry flag, counts of
@@ -29,8 +30,8 @@ ASSUMPTIONS = [
     "enable = 1, usb_reset = 0 (C37: link stays in U0); accept/acknowledge_power_state tied 0",
     "timing bound used for 'offered': an accepted header is visible on `queue` 3 cycles after its last word",
 ]
-BOUNDS = "BMC from reset; required: 2 headers K=33 and 3 headers K=43 in the layer (PHY always ready, no LRTY/keepalive/LXU " \
-         "requests); best effort (may time out): PHY ready free / interleaved commands free; thorough adds 5 headers K=49, gaps"
+BOUNDS = "BMC from reset; quick: 2 headers K=33 everything free, 3 headers K=40 without LRTY/keepalive/LXU requests; " \
+         "thorough: K=41 / 3 headers free K=46 / 5 headers K=49 / headers with invalid cycles inside"
 OUTSIDE = "ill-framed headers; headers arriving without credit; more than 5 headers per trace; liveness of LGOOD/LBAD/LCRD " \
           "beyond the bound (safety: counts and numbers; reachability by cover twins)"
 
@@ -50,7 +51,8 @@ class HeaderRxHarness(Harness):
         from luna.gateware.usb.usb3.link.receiver import HeaderPacketReceiver
         self.dut = HeaderPacketReceiver()
         self.free_enable = free_enable
-        pk = [dict(length=None, gaps=tuple(gaps), idle_after=spacing, hdr_masks="free") for _ in range(n_packets)]
+        pk = [dict(length=None, gaps=tuple(gaps), idle_after=spacing, idle_kind="IDLE", hdr_masks="free")
+              for _ in range(n_packets)]
         self.src = ss_link.SSScriptedSource(self, pk, prefix="p_", lead=lead)
         self.K = len(self.src.script) + 10
         self.src_ready = self.inp("src_ready", 1)
@@ -82,6 +84,7 @@ class HeaderRxHarness(Harness):
             # scenario predicates of the recorded C38 findings (known_findings.json)
             self.kf_cmd = self.kf("reset_during_command")
             self.kf_disp = self.kf("reset_at_dispatch")
+            self.kf_owed = self.kf("lgood_owed_at_link_down")
 
     def elaborate(self, platform):
         m = Module()
@@ -268,7 +271,7 @@ class HeaderRxHarness(Harness):
                 self.a_quiet.eq(~(span | src.ev_hpstart) | (enable & last_en & ~reset)),
                 self.a_idle_up.eq(~up_ev | (~dut.source.valid & ~second)),
             ]
-            # ---- scenario predicates (sticky until the next link-down / reset event re-classifies):
+            # ---- scenario predicates (sticky until the next USB reset, which is classified itself):
             # reset_during_command: the latest down/reset event fell into a cycle in which a link command was on the
             #   wire or was started in the next cycle (the DUT's command FSM was not in DISPATCH_COMMAND);
             # reset_at_dispatch: the latest usb_reset (link up) came exactly two cycles before a new command's LCSTART
@@ -285,7 +288,9 @@ class HeaderRxHarness(Harness):
             set_lost = Signal(name="kf_set_lost")
             set_disp = Signal(name="kf_set_disp")
             m.d.comb += [set_lost.eq(d1 & (v1 | vnow)), set_disp.eq(d2_rst & ~v2 & ~v1 & vnow)]
-            with m.If(down_ev):
+            # (a plain link-down does not restore the sequence numbers, so the effects of a mishandled event last
+            #  until the next USB reset; that reset is then classified itself)
+            with m.If(down_ev & reset):
                 m.d.ss += [lost.eq(0), disp.eq(0)]
             with m.Else():
                 with m.If(set_lost):
@@ -293,6 +298,13 @@ class HeaderRxHarness(Harness):
                 with m.If(set_disp):
                     m.d.ss += disp.eq(1)
             m.d.comb += [self.kf_cmd.eq(lost | set_lost), self.kf_disp.eq(disp | set_disp)]
+            # lgood_owed_at_link_down: at the latest link-down (not a USB reset) an LGOOD -- the advertisement or an
+            #   acknowledgement -- had not been sent yet (the DUT then advertises next_header_to_ack - 1, which is
+            #   not the last received sequence number)
+            owed = Signal(name="kf_owed_r")
+            with m.If(down_ev):
+                m.d.ss += owed.eq(~reset & (owed | adv_pending | (n_lgood != n_acc)))
+            m.d.comb += self.kf_owed.eq(owed)
 
             # what was being sent when the link went down (cover twins for the crash points)
             busy = dut.source.valid
@@ -372,33 +384,25 @@ def queries(tier):
     quick = tier == "quick"
     qs = []
     f2 = lambda: HeaderRxHarness(n_packets=2, lead=9, spacing=2)
-    f3 = lambda: HeaderRxHarness(n_packets=3, lead=9, spacing=2)
+    f3 = lambda: HeaderRxHarness(n_packets=3, lead=9, spacing=3)
     hint = {"*": {"retry_required": 0, "keepalive": 0, "lxu": 0, "src_ready": 1}}
-    cmd_asserts = ["offer_valid", "lgood_number", "lbad_cause", "lcrd_order", "lcrd_free", "adv_first", "lc_format"]
     K2 = f2().K
-    calm_ready = dict(_NO_EXTRA, src_ready=1)
-    qs.append(Query("bmc_2hp_order", f2, K2 if quick else K2 + 6, layer=calm_ready, timeout=2000, hints=hint, split=False,
+    qs.append(Query("bmc_2hp_free", f2, K2 if quick else K2 + 8, timeout=900, hints=hint, split=False,
                     covers=["delivered_k1", "lgood_ack", "lbad_sent", "adv_done", "four_credits", "lcrd_after_free"],
-                    desc="layer: PHY always ready, no LRTY/keepalive/LXU requests; 2 symbolic headers (content, sequence "
-                         "numbers, CRC corruption); protocol-layer consumption and partner retry free every cycle; all "
-                         "assertions"))
-    qs.append(Query("bmc_3hp_plain", f3, f3().K, layer=calm_ready, timeout=2000, hints=hint, split=False,
+                    desc="2 symbolic headers (content, sequence numbers, CRC corruption masks); PHY ready, protocol-layer "
+                         "consumption, partner retry and LRTY/keepalive/LXU requests free in every cycle; all assertions"))
+    qs.append(Query("bmc_3hp_calm", f3, f3().K, layer=_NO_EXTRA, timeout=900, hints=hint, split=False,
                     covers=["ignored_then_accepted", "wrong_seq_dropped"],
-                    desc="layer: PHY always ready, no LRTY/keepalive/LXU; 3 symbolic headers (bad header, ignored header, "
-                         "retry, wrong sequence number), consumption and retry free"))
-    qs.append(Query("bmc_2hp_stall", f2, K2, layer=_NO_EXTRA, asserts=cmd_asserts + ["offer_missing"], covers=[],
-                    timeout=600 if quick else 2000, split=False, required=False,
-                    desc="best effort: PHY ready free every cycle (no LRTY/keepalive/LXU); all but the delivery-order comparison"))
-    qs.append(Query("bmc_2hp_busy", f2, K2, layer={"src_ready": 1}, asserts=cmd_asserts, covers=[],
-                    timeout=600 if quick else 2000, split=False, required=False,
-                    desc="best effort: LRTY/keepalive/LXU requests free (interleaved commands), PHY always ready"))
+                    desc="layer: no LRTY/keepalive/LXU requests; 3 symbolic headers (bad header, ignored header, retry, "
+                         "wrong sequence number); PHY ready, consumption and retry free"))
     if not quick:
+        qs.append(Query("bmc_3hp_free", f3, f3().K + 6, timeout=1800, covers=[], split=False,
+                        desc="3 symbolic headers, everything free, deeper"))
         f5 = lambda: HeaderRxHarness(n_packets=5, lead=9, spacing=1)
-        qs.append(Query("bmc_5hp_ready", f5, f5().K, layer=calm_ready, covers=[], timeout=2000, split=False,
-                        desc="layer: PHY always ready, no LRTY/keepalive/LXU; 5 headers (buffer wrap-around, "
-                             "credit re-issue), consumption free"))
+        qs.append(Query("bmc_5hp_calm", f5, f5().K, layer=_NO_EXTRA, covers=[], timeout=1800, split=False,
+                        desc="layer: no LRTY/keepalive/LXU; 5 headers (buffer wrap-around, credit re-issue)"))
         fg = lambda: HeaderRxHarness(n_packets=2, lead=9, spacing=2, gaps=(2, 4))
-        qs.append(Query("bmc_2hp_gaps", fg, fg().K, layer=calm_ready, covers=[], timeout=2000, split=False,
-                        desc="2 headers with invalid cycles inside them; PHY always ready, no LRTY/keepalive/LXU"))
+        qs.append(Query("bmc_2hp_gaps", fg, fg().K, covers=[], timeout=1800, split=False,
+                        desc="2 headers with invalid cycles inside them; everything free"))
     qs.append(Query("cosim", f3, 0, kind="cosim", cosim_cycles=120 if quick else 600))
     return qs
